@@ -707,6 +707,38 @@ def run_det_case(c, timeout_s=120.0):
                 c.impl = "differ stdout"
                 return
             c.impl = "same rc=0 out=%d files=1" % len(plain[3].get("out.txt", b""))
+        elif c.op == "detunion":
+            # detunion <stdin FASTA> <pattern;;pattern;;…> <revert 0|1> <argv prefix…>: `subset -e p1 p2 …` keeps a row when its
+            # name matches at least one expression - so the rows kept with all the expressions are, in input order, the union of the
+            # rows kept with each expression alone (with -r: the rows dropped are that union). Expressions are arbitrary Go regexps
+            # (inline flags, anchors, alternations): nothing is modelled, the binary is compared with itself
+            pats = [p for p in str(c.args[1]).split(";;") if p != ""]
+            rev = str(c.args[2]) == "1"
+            argv = [str(a) for a in c.args[3:]]
+
+            def recs(out):
+                rs, cur = [], None
+                for ln in out.decode("latin-1").split("\n"):
+                    if ln.startswith(">"):
+                        cur = [ln[1:], ""]
+                        rs.append(cur)
+                    elif cur is not None:
+                        cur[1] += ln.strip()
+                return [tuple(r) for r in rs]
+            allin = recs(stdin)
+            whole = exec_goalign(argv + (["-r"] if rev else []) + ["-e"] + pats, stdin, {}, timeout_s)
+            each = [exec_goalign(argv + ["-e", p], stdin, {}, timeout_s) for p in pats]
+            if whole[0] != 0 or any(r[0] != 0 for r in each):
+                ok = (whole[0] != 0) == any(r[0] != 0 for r in each)
+                c.impl = "same rc=%s out=0 files=0" % whole[0] if ok else "differ exit-status whole=%s alone=%s" % (whole[0], [r[0] for r in each])
+                return
+            kept = set()
+            for r in each:
+                kept |= set(recs(r[1]))
+            exp = [x for x in allin if (x in kept) != rev]
+            got = recs(whole[1])
+            c.impl = "same rc=0 out=%d files=0" % len(whole[1]) if got == exp else \
+                "differ rows kept=%s expected=%s" % ([g[0] for g in got], [e[0] for e in exp])
         elif c.op == "detannot":
             # detannot <alignment> <annotation text> <argv… with @ANN@ where the annotation file is named>: a command that reads
             # a second input file must give the same bytes (exit status, stdout, files written) whether that file is plain,
